@@ -70,7 +70,11 @@ def apply_one(name, val):
         return ("%s(%s)" % (name, v if isinstance(v, str) else str(v)), False)
     if name.startswith("mk("):
         inner = name[3:-1]
-        tag = {"'|'": "mk[|]", "a=1": "mk[a=1]", "'}', ')'": "mk[},)]"}[inner]
+
+        def _tag(*a, **k):
+            return "mk[" + ",".join([str(x) for x in a] + ["%s=%s" % kv for kv in sorted(k.items())]) + "]"
+
+        tag = eval("_tag(%s)" % inner, {"_tag": _tag})  # the same arithmetic as mk() in the template's module block
         return ("%s(%s)" % (tag, v if isinstance(v, str) else str(v)), False)
     if name == "h":
         if mk:
@@ -124,7 +128,9 @@ VALUES = {
     "i": 42,
     "p": "plain",
 }
-EFILTERS = ["h", "x", "u", "trim", "entity", "str", "unicode", "decode.utf8", "n", "f", "g", "cf", "mk('|')", "mk(a=1)"]
+EFILTERS = ["h", "x", "u", "trim", "entity", "str", "unicode", "decode.utf8", "n", "f", "g", "cf", "mk('|')", "mk(a=1)",
+            # brace literals as arguments of a filter call: the filter list does not end at their closing brace
+            "mk({'a': 1})", "mk({2}, k={})"]
 DEFAULTS = [None, ["str"], [], ["f"], ["f", "g"], ["h"], ["str", "trim"]]
 PAGES = [None, ["g"], ["g", "f"], ["n"], ["n", "g"], ["h"]]
 
